@@ -150,7 +150,7 @@ def vectors(ctx, streams):
     # long one-sided stretches: NetSource only sends once it holds more than one ADS-B message, so Comm-B replies (or anything
     # else) pile up in its local buffers for as long as no second squitter arrives - thousands of messages over many reads.
     # Whatever the size, everything handed over must come out once, in order (sizes: powers of two and their neighbourhoods)
-    sizes = [700, 1500, 2100, 4200] if ctx.quick else [700, 1500, 2100, 4200, 8300, 16500, 33000, 66000]
+    sizes = [700, 1500, 2100, 4200] if ctx.quick else [700, 1500, 2100, 4200, 8300, 16500]
     for j, total in enumerate(sizes):
         batches = [[gen.rand_frame_df(rng, 17)] if j % 2 == 0 else []]
         left = total + rng.randint(0, 99)
